@@ -298,7 +298,7 @@ func (e *Exec) runFrame(fr *frame) {
 			panic("block fell through: " + fr.fn.String())
 		}
 		// back edge accounting (unwinding assertion)
-		if fr.block.Index <= fr.prevBlock.Index {
+		if fr.block.Index <= fr.prevBlock.Index && fr.block.Dominates(fr.prevBlock) {
 			if fr.backedges == nil {
 				fr.backedges = map[int]int{}
 			}
